@@ -339,48 +339,47 @@ func rule054(r *core.Run, ctx *oblig.Ctx) {
 					okDel = idEq && promoteFalse
 					why = "the key is removed although an archived version may remain or another version was addressed"
 				case "s3mem.(*bucket).rm":
-					// not reachable from the true edge of versions.Len() > 0, nor under versioning == Enabled
+					// not reachable when the archive-emptiness test says "non-empty", nor under versioning == Enabled
+					// (decided by assuming the comparison's value, whatever shape the branch has)
 					okDel = true
 					validLenTest := false
-					defer func() {}()
 					core.Instrs(f, func(in ssa.Instruction) {
-						iff, ok := in.(*ssa.If)
+						b, ok := in.(*ssa.BinOp)
 						if !ok {
 							return
 						}
-						s := r.P.SliceOf(iff.Cond, core.SliceOpts{Depth: -1})
-						cd := core.CondOf(iff.Cond)
-						if s.Has("call:" + skipLen) {
-							// the archive-emptiness test: Len() > 0 (or != 0, >= 1)
+						s := r.P.SliceOfMany([]ssa.Value{b.X, b.Y}, core.SliceOpts{Depth: -1})
+						cd := core.CondOf(b)
+						if lc, isCall := b.X.(*ssa.Call); isCall && r.P.CalleeName(lc) == skipLen {
 							k, isK := core.ConstInt(cd.Y)
-							nonEmptyOnTrue := isK && ((cd.Op == token.GTR && k == 0) || (cd.Op == token.NEQ && k == 0) || (cd.Op == token.GEQ && k == 1))
-							if cd.Neg {
-								nonEmptyOnTrue = false
+							if !isK {
+								okDel = false
+								return
 							}
-							if nonEmptyOnTrue {
-								validLenTest = true
-								t := iff.Block().Succs[0]
-								if len(t.Instrs) > 0 && (t.Instrs[0] == c.(ssa.Instruction) || core.Reaches(t.Instrs[0], c.(ssa.Instruction))) {
-									okDel = false
-								}
-							} else {
-								okDel = false // a Len() test that is not 'archive non-empty'
+							// truth value of the comparison that means "archive non-empty"
+							var nonEmpty, known bool
+							switch {
+							case (cd.Op == token.GTR && k == 0) || (cd.Op == token.NEQ && k == 0) || (cd.Op == token.GEQ && k == 1):
+								nonEmpty, known = true, true
+							case (cd.Op == token.EQL && k == 0) || (cd.Op == token.LEQ && k == 0) || (cd.Op == token.LSS && k == 1):
+								nonEmpty, known = false, true
+							}
+							if !known {
+								okDel = false // a Len() test that is not an emptiness test
+								return
+							}
+							validLenTest = true
+							if core.ReachesAssuming(b, c.(ssa.Instruction), map[ssa.Value]bool{b: nonEmpty}) {
+								okDel = false
 							}
 						}
-						if s.Has("field:s3mem.bucket.versioning") && s.Has("const:Enabled") && cd.Op == token.EQL {
-							t := iff.Block().Succs[0]
-							if len(t.Instrs) > 0 && (t.Instrs[0] == c.(ssa.Instruction) || core.Reaches(t.Instrs[0], c.(ssa.Instruction))) {
+						if s.Has("field:s3mem.bucket.versioning") && s.Has("const:Enabled") && (cd.Op == token.EQL || cd.Op == token.NEQ) {
+							if core.ReachesAssuming(b, c.(ssa.Instruction), map[ssa.Value]bool{b: cd.Op == token.EQL}) {
 								okDel = false
 							}
 						}
 					})
-					hasLenTest := false
-					core.Instrs(f, func(in ssa.Instruction) {
-						if cc, ok := in.(*ssa.Call); ok && r.P.CalleeName(cc) == skipLen {
-							hasLenTest = true
-						}
-					})
-					okDel = okDel && hasLenTest && validLenTest
+					okDel = okDel && validLenTest
 					why = "a plain delete removes the key although archived versions remain (or versioning is enabled)"
 				}
 				r.Check(okDel, "R05.4", key(name, "objects.Delete"), pos(r, c.(ssa.Instruction)), "key removed only when nothing remains", why)
